@@ -41,7 +41,12 @@ def hit(self, name):
 '''
 
 
-def module_source(classes):
+# the documented ways of ending a test module
+ENDINGS = {'class': 'ReferenceTestCase.main()',
+           'function': 'from tdda.referencetest.referencetestcase import main\n    main()'}
+
+
+def module_source(classes, ending='class'):
     s = [HEADER]
     for c in classes:
         if c['tagged']:
@@ -57,7 +62,7 @@ def module_source(classes):
             if t['fails']:
                 s.append('        self.fail("deliberate")')
         s.append('')
-    s.append("if __name__ == '__main__':\n    ReferenceTestCase.main()\n")
+    s.append("if __name__ == '__main__':\n    %s\n" % ENDINGS[ending])
     return '\n'.join(s)
 
 
@@ -176,7 +181,7 @@ def run_case(ctx, case, real=False):
     os.makedirs(d, exist_ok=True)
     path = os.path.join(d, 'mod_under_test.py')
     with open(path, 'w') as f:
-        f.write(module_source(case['classes']))
+        f.write(module_source(case['classes'], case.get('ending', 'class')))
     log = os.path.join(d, 'hits.log')
     if os.path.exists(log):
         os.unlink(log)
@@ -482,7 +487,7 @@ def run_shard(ctx):
         classes = gen_module(rng)
         for a in range(ctx.params['argvs']):
             k += 1
-            case = dict(gen_argv(rng, classes, a + m), classes=classes)
+            case = dict(gen_argv(rng, classes, a + m), classes=classes, ending='function' if (a + m) % 5 == 3 else 'class')
             obs = run_case(ctx, case)
             if obs is not None and k % ctx.params['real_every'] == 1:
                 real = run_case(ctx, case, real=True)
